@@ -298,9 +298,10 @@ pub fn judge(w: &World, r: &RunResult) -> Vec<Violation> {
                 continue;
             }
             // draws made by this very call are legitimate sources; exclude them
-            let own: Vec<&Vec<u8>> = r.events[*i].draws.iter().map(|d| &d.0).collect();
+            // (any window of the call's own tape: a key assembled from two draws is as legitimate)
+            let own: Vec<u8> = r.events[*i].draws.iter().flat_map(|d| d.0.iter().copied()).collect();
             for k in &candidates {
-                if own.contains(&k) {
+                if own.windows(k.len()).any(|w| w == k.as_slice()) {
                     continue;
                 }
                 let pad = credential_response_pad(h, k, &b[mn.off..mn.off + mn.len], mr.len);
@@ -316,12 +317,32 @@ pub fn judge(w: &World, r: &RunResult) -> Vec<Violation> {
             }
         }
     }
+    // entropy accounting: the no-record answer carries one more fresh value than the with-record
+    // answer, a stand-in masking key of Nh bytes; it cannot have come out of fewer than Nh
+    // additional bytes of tape (minima over the run, so that rejection sampling is no alarm)
+    if !w.knobs.rng_try_fill_fails {
+        let (mut min_real, mut min_fake): (Option<(usize, usize)>, Option<(usize, usize)>) = (None, None);
+        for (i, (op, e)) in w.ops.iter().zip(r.events.iter()).enumerate() {
+            if let (Op::LoginRespond { record, .. }, Ok(_), false) = (op, &e.res, e.skipped) {
+                let n: usize = e.draws.iter().map(|d| d.0.len()).sum();
+                let slot = if record.is_none() { &mut min_fake } else { &mut min_real };
+                if slot.map_or(true, |(m, _)| n < m) {
+                    *slot = Some((n, i));
+                }
+            }
+        }
+        if let (Some((re, ri)), Some((fa, fi))) = (min_real, min_fake) {
+            if fa < re + lens.nh {
+                v.push(Violation { clause: "fake_masking_key_predictable", op: fi, detail: format!("the answer without a password file (op {fi}) drew {fa} bytes of randomness, the answer with one (op {ri}) {re}: the {}-byte stand-in masking key cannot be fresh", lens.nh) });
+            }
+        }
+    }
     v
 }
 
 pub fn run(ctx: &Ctx) -> Report {
     let mut rep = Report::new(
-        "per world: one registration, 2 real logins and 4 fake attempts (unregistered id twice, registered id without record, again) interleaved; each fake request is also answered with the real record and once more without; each real request is replayed to the server once; 2 crafted requests (key share := the password file's client key / the server's key) are sent for the registered identifier with and without the file and for the unregistered one and must be answered or refused alike. Checked: equal length + decodes; evaluation element equal for equal (setup, request, credential id) with or without record; masking nonce / masked response / server nonce / server ephemeral key / MAC never repeat across the run; fake response must not unmask to server_pk‖0 under any key visible outside that call (zero, 0xFF, real masking keys, any Nh-byte draw of another call); client gets InvalidLoginError; zero / 0xFF / random / real finalizations and MACs/hashes over constants (computable without any secret) never complete a fake server state. What is decidable is non-repetition and tape-dependence, not unpredictability as such",
+        "per world: one registration, 2 real logins and 4 fake attempts (unregistered id twice, registered id without record, again) interleaved; each fake request is also answered with the real record and once more without; each real request is replayed to the server once; 2 crafted requests (key share := the password file's client key / the server's key) are sent for the registered identifier with and without the file and for the unregistered one and must be answered or refused alike. Checked: equal length + decodes; evaluation element equal for equal (setup, request, credential id) with or without record; masking nonce / masked response / server nonce / server ephemeral key / MAC never repeat across the run; fake response must not unmask to server_pk‖0 under any key visible outside that call (zero, 0xFF, real masking keys, any Nh-byte draw of another call) and must have drawn at least Nh bytes of tape more than a with-record answer; client gets InvalidLoginError; zero / 0xFF / random / real finalizations and MACs/hashes over constants (computable without any secret) never complete a fake server state. What is decidable is non-repetition and tape-dependence, not unpredictability as such",
     );
     let mut suites: Vec<&'static dyn SuiteOps> = SIM_SUITES.to_vec();
     suites.extend(ID_SUITES.iter().step_by(ctx.pick(4, 1)));
